@@ -141,6 +141,58 @@ def pumped(tier):
     return out
 
 
+def history_material():
+    '''Rejected multi-line texts and valid multi-line programs for the parse-history family.'''
+    valid, rejected = [], ['x = ;', 'x = 1;\ny = ;', '\n\n\nselect', 'if (x)\n y = 1;\n', '/* a\n b */ x = (\n1 +\n', 'x = "a\n";',
+                           'while (true)\n\n x = 1;\n end if;', '\n' * 7 + ')', "relate a to b across R1.'p\n';", 'x = 1 +\n\n\n;']
+    fam = F.statement_family()
+    for name, stmts in fam[:: max(1, len(fam) // 36)]:
+        valid.append((name, stmts))
+        p = A.print_program(stmts)
+        text, _ = A.assemble(p, A.Layout(default='\n'))
+        if text.count('\n') >= 3:
+            cut = text.rfind('\n', 0, len(text) * 2 // 3)
+            rejected.append(text[:cut] + '\n)')
+    return valid, rejected
+
+
+def history_task(ctx, task):
+    '''parse() calls in sequence in ONE process: earlier calls (accepted or rejected) must not influence later results.'''
+    from bridgepoint import oal
+    valid, rejected = history_material()
+    lo, hi = task
+    layout = ['uniform', '\n']
+    seqs = []
+    for bad in rejected:
+        for v in valid:
+            seqs.append(([bad], v))
+    for b1, b2 in zip(rejected, rejected[1:] + rejected[:1]):
+        for v in valid[::4]:
+            seqs.append(([b1, b2], v))
+    for v1, v2 in zip(valid, valid[1:] + valid[:1]):
+        seqs.append(([A.assemble(A.print_program(v1[1]), A.Layout(default='\n'))[0]], v2))
+    for pre, (name, stmts) in seqs[lo:hi]:
+        for text in pre:
+            ctx.count('parses')
+            try:
+                oal.parse(text)
+            except oal.ParseException:
+                pass
+            except Exception as e:
+                ctx.violation('c13:total:history:%s' % type(e).__name__, dict(kind='total', family='history', text=text),
+                              'parsing %r raised %s' % (text, type(e).__name__))
+        p = A.print_program(stmts)
+        ctx.count('history_sequences')
+        ok = c07.check_text(ctx, 'c13', p, layout, True, dict(kind='history', pre=pre, name=name, stmts=stmts, paren='minimal'), 'history')
+        if ok:
+            ctx.distinct('nontrivial', ('history', repr(pre), name))
+
+
+def history_count():
+    valid, rejected = history_material()
+    return len(rejected) * len(valid) + len(rejected) * len(valid[::4]) + len(valid)
+
+
 def _parse_outcome(text):
     from bridgepoint import oal
     try:
@@ -203,6 +255,9 @@ def run(ctx):
         k = ctx.seed % 5
         texts = texts[k:] + texts[:k]
         ctx.pmap(total_task, [(fam, c) for c in c07.chunks(texts, 2000)])
+    n = history_count()
+    ctx.pmap(history_task, [(i, min(i + 100, n)) for i in range(0, n, 100)])
+    ctx.require(ctx.n('history_sequences') >= 500, 'too few parse histories (%d)' % ctx.n('history_sequences'))
     run_pumped(ctx)
     ctx.sample(dict(totality_string=strings(2)[777], token_sequence=token_sequences(TOKENS_SHORT, 3)[5000], pumped=pumped('quick')[100][:30]))
     ctx.require(ctx.n('accepted') >= 1000 and ctx.n('rejected') >= 10000,
@@ -221,6 +276,15 @@ def replay(ctx, case):
                 ctx.violation('c13:total:pumped:%s' % (r[0] if isinstance(r[0], str) else r[0][1]), case, 'outcome %r' % (r[0],))
             return
         total_task(ctx, (case['family'], [case['text']]))
+    elif case.get('kind') == 'history':
+        from bridgepoint import oal
+        for text in case['pre']:
+            try:
+                oal.parse(text)
+            except Exception:
+                pass
+        c07.check_text(ctx, 'c13', A.print_program(case['stmts']), case.get('layout', ['uniform', '\n']), True,
+                       dict(kind='history', pre=case['pre'], name=case['name'], stmts=case['stmts'], paren='minimal'), 'history')
     elif case.get('kind') == 'time':
         if watchdog.confirm_slow(_parse_outcome, case['text'], 2.0, times=1):
             ctx.violation('c13:time', case, 'parsing does not finish within 2 s')
@@ -238,6 +302,7 @@ def coverage(ctx):
         evaluations=ctx.n('parses'),
         distinct_nontrivial=ctx.nd('nontrivial'),
         position_programs=ctx.n('position_programs'), distinct_trees=ctx.nd('trees'), distinct_layouts=ctx.nd('layouts'),
+        parse_histories=ctx.n('history_sequences'),
         totality_inputs=ctx.n('totality_inputs'), accepted=ctx.n('accepted'), rejected=ctx.n('rejected'),
         pumped_inputs=ctx.n('pumped_inputs'), distinct_outcomes=ctx.nd('outcomes'),
         rule='positions: every (program, layout) pair printed with recorded spans, parsed, and every statement/expression node '
